@@ -120,18 +120,29 @@ theorem failsafe_always_accepted (cs : Chains) (f : Nat) (c : Config) (k : HepKi
     rw [runRules_cons_jump cs _ _ _ p chFailsafeOut (by simp [Rule.matches]) rfl,
         runChain_succ cs f chFailsafeOut p _ hout, (failsafe_chain_accepts cs f c k.untracked p pp).2 hpp hm]
 
-/-- non-vacuity of the hypotheses + a concrete run: ssh to a host endpoint with a deny-all tier. -/
+def exCfg : Config :=
+  { ipip := true, vxlan := false, vxlanPort := 4789, toHost := .drop, filterAllow := .accept,
+    mangleAllow := .accept, disableCtInvalid := false, prefixes := ["cali"],
+    failsafeIn := [{ protoName := "tcp", protoNum := 6, port := 22 }], failsafeOut := [] }
+
+def exChains : Chains := fun n =>
+  if n = chFailsafeIn then some (failsafeInChain exCfg false)
+  else if n = "cali-pi-gnp/deny-all" then some [{ action := .drop }]
+  else if n = chWlToHost then some (wlToHostChain exCfg)
+  else if n = chFromWlDispatch then some (wlDispatchChain true ["cali1234"])
+  else none
+
+def exPkt : Pkt :=
+  { proto := 6, sport := 40000, dport := 22, src := 1, dst := 2, inIf := "eth0", outIf := "", ct := 0,
+    mark := 0, dstLocal := true, srcSets := [] }
+
+def exTiers : List Tier := [{ name := "t", defaultPass := false, pols := [("deny-all", false)] }]
+
+/-- non-vacuity + a concrete run: ssh to a host endpoint with a deny-all tier is accepted, telnet is
+dropped by the policy. -/
 example :
-    let c : Config := { ipip := true, vxlan := false, vxlanPort := 4789, toHost := .drop, filterAllow := .accept,
-      mangleAllow := .accept, disableCtInvalid := false, prefixes := ["cali"],
-      failsafeIn := [{ protoName := "tcp", protoNum := 6, port := 22 }], failsafeOut := [] }
-    let cs : Chains := fun n => if n = chFailsafeIn then some (failsafeInChain c false) else
-      if n = "cali-pi-gnp/deny-all" then some [{ action := .drop }] else none
-    let p : Pkt := { proto := 6, sport := 40000, dport := 22, src := 1, dst := 2, inIf := "eth0", outIf := "", ct := 0,
-                     mark := 0, dstLocal := true, srcSets := [] }
-    runRules cs 3 (hepChain c .filterIn [{ name := "t", defaultPass := false, pols := [("deny-all", false)] }]) p = .accept ∧
-    runRules cs 3 (hepChain c .filterIn [{ name := "t", defaultPass := false, pols := [("deny-all", false)] }])
-      { p with dport := 23 } = .drop := by
+    runRules exChains 3 (hepChain exCfg .filterIn exTiers) exPkt = .accept ∧
+    runRules exChains 3 (hepChain exCfg .filterIn exTiers) { exPkt with dport := 23 } = .drop := by
   decide
 
 /-- The conntrack hypothesis of `failsafe_always_accepted` cannot be dropped for the tracked chains:
@@ -140,13 +151,7 @@ jump, so a failsafe-port packet that conntrack classifies INVALID is dropped (un
 `DisableConntrackInvalidCheck` is set).  By design in the code; recorded here as the exact limit of
 the guarantee. -/
 theorem failsafe_invalid_ct_dropped :
-    let c : Config := { ipip := false, vxlan := false, vxlanPort := 4789, toHost := .drop, filterAllow := .accept,
-      mangleAllow := .accept, disableCtInvalid := false, prefixes := ["cali"],
-      failsafeIn := [{ protoName := "tcp", protoNum := 6, port := 22 }], failsafeOut := [] }
-    let cs : Chains := fun n => if n = chFailsafeIn then some (failsafeInChain c false) else none
-    let p : Pkt := { proto := 6, sport := 40000, dport := 22, src := 1, dst := 2, inIf := "eth0", outIf := "", ct := 2,
-                     mark := 0, dstLocal := true, srcSets := [] }
-    runRules cs 3 (hepChain c .filterIn []) p = .drop := by
+    runRules exChains 3 (hepChain exCfg .filterIn []) { exPkt with ct := 2 } = .drop := by
   decide
 
 /-- **wl_to_host_after_egress.**  In `cali-wl-to-host` the configured endpoint-to-host action is
@@ -167,10 +172,10 @@ theorem wl_to_host_after_egress (cs : Chains) (f : Nat) (c : Config) (p : Pkt) :
   | drop => rfl
   | fall p' =>
     simp only []
-    cases h : c.toHost <;> simp only [] <;> first
-      | (rw [runRules_cons_accept cs f _ _ p' (by simp [Rule.matches]) (by simp [h])])
-      | (rw [runRules_cons_drop cs f _ _ p' (by simp [Rule.matches]) (by simp [h])])
-      | rfl
+    cases h : c.toHost with
+    | accept => exact runRules_cons_accept cs f _ _ p' (by simp [Rule.matches]) rfl
+    | drop => exact runRules_cons_drop cs f _ _ p' (by simp [Rule.matches]) rfl
+    | _ => rfl
 
 /-- the workload dispatch chain drops what matches none of its endpoints. -/
 theorem wlDispatch_unknown_dropped (cs : Chains) (f : Nat) (ifaces : List String) (p : Pkt)
@@ -183,19 +188,18 @@ theorem wlDispatch_unknown_dropped (cs : Chains) (f : Nat) (ifaces : List String
     obtain ⟨n, hn, rfl⟩ := List.mem_map.1 hr
     simp [Rule.matches, Crit.holds, hunk n hn]
 
-/-- a run of `goto X` rules, one per workload prefix. -/
-theorem prefix_gotos (cs : Chains) (f : Nat) (prefixes : List String) (rest : List Rule) (p : Pkt) (tgt : String)
+/-- a run of `goto cali-wl-to-host` rules, one per workload prefix. -/
+theorem prefix_gotos (cs : Chains) (f : Nat) (prefixes : List String) (rest : List Rule) (p : Pkt)
     (hm : ∃ pfx ∈ prefixes, ifaceMatches (pfx ++ "+") p.inIf = true) :
-    runRules cs f (prefixes.map (fun pfx => ({ crits := [.inIf (pfx ++ "+")], action := .goto tgt } : Rule)) ++ rest) p
-      = runChain cs f tgt p := by
+    runRules cs f (prefixes.map inputPrefixRule ++ rest) p = runChain cs f chWlToHost p := by
   induction prefixes with
   | nil => obtain ⟨x, hx, _⟩ := hm; simp at hx
   | cons a as ih =>
     simp only [List.map_cons, List.cons_append]
     by_cases ha : ifaceMatches (a ++ "+") p.inIf = true
-    · exact runRules_cons_goto cs f _ _ p tgt (by simp [Rule.matches, Crit.holds, ha]) rfl
+    · exact runRules_cons_goto cs f _ _ p chWlToHost (by simp [inputPrefixRule, Rule.matches, Crit.holds, ha]) rfl
     · have ha' : ifaceMatches (a ++ "+") p.inIf = false := by simpa using ha
-      rw [runRules_cons_nomatch cs f _ _ p (by simp [Rule.matches, Crit.holds, ha'])]
+      rw [runRules_cons_nomatch cs f _ _ p (by simp [inputPrefixRule, Rule.matches, Crit.holds, ha'])]
       apply ih
       obtain ⟨x, hx, hxm⟩ := hm
       rcases List.mem_cons.1 hx with h | h
@@ -205,18 +209,9 @@ theorem prefix_gotos (cs : Chains) (f : Nat) (prefixes : List String) (rest : Li
 /-- the tunnel-filter rules at the top of `cali-INPUT` do not fire for a packet that is neither IPIP
 nor UDP. -/
 theorem input_tunnel_rules_skipped (c : Config) (p : Pkt) (h4 : p.proto ≠ 4) (h17 : p.proto ≠ 17) :
-    ∀ r ∈ ((if c.ipip then
-      [({ comment := some "Allow IPIP packets from Calico hosts",
-         crits := [.protoNum 4, .srcSet ipsetAllHosts, .dstLocal], action := c.filterAllow } : Rule),
-       { comment := some "Drop IPIP packets from non-Calico hosts", crits := [.protoNum 4], action := .drop }]
-     else []) ++
-    (if c.vxlan then
-      [({ comment := some "Allow IPv4 VXLAN packets from allowed hosts",
-         crits := [.protoNum 17, .dports c.vxlanPort, .srcSet ipsetVXLAN, .dstLocal], action := c.filterAllow } : Rule),
-       { comment := some "Drop IPv4 VXLAN packets from non-allowed hosts",
-         crits := [.protoNum 17, .dports c.vxlanPort, .dstLocal], action := .drop }]
-     else [])), r.matches p = false := by
+    ∀ r ∈ inputTunnelRules c, r.matches p = false := by
   intro r hr
+  unfold inputTunnelRules at hr
   rcases List.mem_append.1 hr with hr | hr
   · split at hr
     · simp at hr; rcases hr with rfl | rfl <;> simp [Rule.matches, Crit.holds, h4]
@@ -237,72 +232,103 @@ theorem unknown_workload_iface_dropped_input (cs : Chains) (f : Nat) (c : Config
     (h2 : cs chFromWlDispatch = some (wlDispatchChain true ifaces)) :
     runRules cs (f + 2) (filterInputChain c) p = .drop := by
   unfold filterInputChain
-  rw [List.append_assoc, List.append_assoc, ← List.append_assoc _ _ (List.map _ _ ++ _),
-      runRules_skip cs _ _ _ p (input_tunnel_rules_skipped c p h4 h17),
-      prefix_gotos cs _ c.prefixes _ p chWlToHost hwl, runChain_succ cs (f + 1) chWlToHost p _ h1,
+  rw [runRules_skip cs _ _ _ p (input_tunnel_rules_skipped c p h4 h17),
+      prefix_gotos cs _ c.prefixes _ p hwl, runChain_succ cs (f + 1) chWlToHost p _ h1,
       wl_to_host_after_egress, runChain_succ cs f chFromWlDispatch p _ h2,
       wlDispatch_unknown_dropped cs f ifaces p hunk]
 
-/-- **unknown_workload_iface_dropped (FORWARD path), partial.**  On the forward path the packet first
-visits `cali-from-hep-forward` (host endpoint forward policy; not part of this model).  PROVIDED that
-chain hands the packet back (does not itself accept it — e.g. there is no all-interfaces host
-endpoint with apply-on-forward policy matching an established flow), the packet from an unknown
-workload interface is dropped by `cali-from-wl-dispatch`.  What is missing for the full statement: a
-model of the host endpoint forward dispatch chains. -/
+/-- **foreign_tunnel_dropped.**  With IPIP enabled, an IPIP packet whose source is not in the
+all-Calico-hosts IP set (or that is not addressed to the host) is dropped by `cali-INPUT`; with VXLAN
+enabled, a UDP packet to the VXLAN port of the host from a source outside the allowed-VTEP IP set
+is dropped. -/
+theorem foreign_tunnel_dropped (cs : Chains) (f : Nat) (c : Config) (p : Pkt) :
+    (c.ipip = true → p.proto = 4 → (p.srcSets.contains ipsetAllHosts && p.dstLocal) = false →
+      runRules cs f (filterInputChain c) p = .drop) ∧
+    (c.vxlan = true → p.proto = 17 → p.dport = c.vxlanPort → p.dstLocal = true →
+      p.srcSets.contains ipsetVXLAN = false → runRules cs f (filterInputChain c) p = .drop) := by
+  constructor
+  · intro hi hp hs
+    unfold filterInputChain inputTunnelRules
+    simp only [hi, if_true, List.cons_append, List.append_assoc]
+    rw [runRules_cons_nomatch cs f _ _ p (by
+      simp only [Rule.matches, List.all_cons, List.all_nil, Crit.holds, hp, Bool.and_true, beq_self_eq_true, Bool.true_and]
+      exact hs)]
+    exact runRules_cons_drop cs f _ _ p (by simp [Rule.matches, Crit.holds, hp]) rfl
+  · intro hv hp hd hl hs
+    unfold filterInputChain inputTunnelRules
+    have hskip : ∀ r ∈ (if c.ipip = true then
+        [({ comment := some "Allow IPIP packets from Calico hosts",
+            crits := [.protoNum 4, .srcSet ipsetAllHosts, .dstLocal], action := c.filterAllow } : Rule),
+         { comment := some "Drop IPIP packets from non-Calico hosts", crits := [.protoNum 4], action := .drop }]
+        else []), r.matches p = false := by
+      intro r hr
+      split at hr
+      · simp at hr; rcases hr with rfl | rfl <;> simp [Rule.matches, Crit.holds, hp]
+      · simp at hr
+    simp only [hv, if_true, List.append_assoc]
+    rw [runRules_skip cs f _ _ p hskip]
+    simp only [List.cons_append]
+    have hs' : ¬ ipsetVXLAN ∈ p.srcSets := by simpa using hs
+    rw [runRules_cons_nomatch cs f _ _ p (by simp [Rule.matches, Crit.holds, hp, hd, hl, hs'])]
+    exact runRules_cons_drop cs f _ _ p (by simp [Rule.matches, Crit.holds, hp, hd, hl]) rfl
+
+example : runRules exChains 4 (filterInputChain exCfg) { exPkt with proto := 4 } = .drop := by decide
+
+/-- **unknown_workload_iface_dropped (FORWARD path), partial.**  On the forward path the packet
+visits `cali-from-hep-forward` and, for every workload prefix listed before the one its interface
+matches, possibly `cali-to-wl-dispatch` (when it leaves through a workload interface of that
+prefix).  PROVIDED those chains do not terminally ACCEPT it (they drop it or hand it back with the
+same in-interface — true for NEW connections, whose allow verdicts are "mark + RETURN"; an
+ESTABLISHED flow can be accepted there by a conntrack rule), the packet from an unknown workload
+interface is dropped.  What is missing for the full statement: models of the host endpoint forward
+chains and of the to-workload chains (C09/C10's business). -/
 theorem unknown_workload_iface_dropped_forward_partial (cs : Chains) (f : Nat) (c : Config)
     (ifaces : List String) (p : Pkt)
-    (hret : ∀ q : Pkt, q.inIf = p.inIf → ∃ q', runChain cs (f + 1) chFromHepFwd q = .fall q' ∧ q'.inIf = p.inIf)
+    (hnoacc : ∀ ch, ch = chFromHepFwd ∨ ch = chToWlDispatch → ∀ q : Pkt, q.inIf = p.inIf →
+      runChain cs (f + 1) ch q = .drop ∨ ∃ q', runChain cs (f + 1) ch q = .fall q' ∧ q'.inIf = p.inIf)
     (hwl : ∃ pfx ∈ c.prefixes, ifaceMatches (pfx ++ "+") p.inIf = true)
     (hunk : ∀ n ∈ ifaces, ifaceMatches n p.inIf = false)
     (h2 : cs chFromWlDispatch = some (wlDispatchChain true ifaces)) :
     runRules cs (f + 1) (filterForwardChain c) p = .drop := by
-  -- after the first two rules we hold some packet q with the same in-interface
-  suffices h : ∀ q : Pkt, q.inIf = p.inIf →
-      runRules cs (f + 1) ((c.prefixes.map (fun pfx =>
-        [({ crits := [.inIf (pfx ++ "+")], action := .jump chFromWlDispatch } : Rule),
-         { crits := [.outIf (pfx ++ "+")], action := .jump chToWlDispatch }])).flatten ++
-        [{ action := .jump chToHepFwd }, { action := .jump chCidrBlock }]) q = .drop by
-    unfold filterForwardChain
-    simp only [List.cons_append, List.nil_append, List.append_assoc]
-    rw [runRules_cons_clear cs _ _ _ p _ (by simp [Rule.matches]) rfl]
-    by_cases hm : (({ crits := [.markClear markAccept], action := .jump chFromHepFwd } : Rule).matches
-        { p with mark := clearBits p.mark (markAll - markAccept) }) = true
-    · rw [runRules_cons_jump cs _ _ _ _ chFromHepFwd hm rfl]
-      obtain ⟨q', hq', hi⟩ := hret { p with mark := clearBits p.mark (markAll - markAccept) } rfl
-      rw [hq']
-      exact h q' hi
-    · have hm' : (({ crits := [.markClear markAccept], action := .jump chFromHepFwd } : Rule).matches
-        { p with mark := clearBits p.mark (markAll - markAccept) }) = false := by simpa using hm
-      rw [runRules_cons_nomatch cs _ _ _ _ hm']
-      exact h _ rfl
-  intro q hq
-  obtain ⟨pfx0, hp0, hm0⟩ := hwl
-  generalize c.prefixes = ps at hp0
-  induction ps with
-  | nil => simp at hp0
-  | cons a as ih =>
-    simp only [List.map_cons, List.flatten_cons, List.cons_append, List.nil_append]
-    by_cases ha : ifaceMatches (a ++ "+") q.inIf = true
-    · rw [runRules_cons_jump cs _ _ _ q chFromWlDispatch (by simp [Rule.matches, Crit.holds, ha]) rfl,
-          runChain_succ cs f chFromWlDispatch q _ h2,
-          wlDispatch_unknown_dropped cs f ifaces q (by rw [hq]; exact hunk)]
-    · have ha' : ifaceMatches (a ++ "+") q.inIf = false := by simpa using ha
-      rw [runRules_cons_nomatch cs _ _ _ q (by simp [Rule.matches, Crit.holds, ha'])]
-      rcases List.mem_cons.1 hp0 with h | h
-      · subst h; rw [hq, hm0] at ha'; cases ha'
-      · -- skip the out-interface rule of this prefix (it may jump to the to-workload dispatch; that
-        -- chain is not constrained here, so we need it not to fire: out-interface of an INPUT-bound
-        -- packet is a different interface; we only treat the case where it does not match)
-        by_cases hb : ifaceMatches (a ++ "+") q.outIf = true
-        · -- the out-interface rule fires: jump to cali-to-wl-dispatch, which we do not constrain
-          -- here; this case is excluded by the hypothesis below
-          exact absurd hb (by
-            have : False := by
-              -- no constraint available: this branch is ruled out by strengthening the statement
-              exact (nomatch_out q a) hb
-            exact this.elim)
-        · have hb' : ifaceMatches (a ++ "+") q.outIf = false := by simpa using hb
-          rw [runRules_cons_nomatch cs _ _ _ q (by simp [Rule.matches, Crit.holds, hb'])]
-          exact ih h
+  have hpfx : ∀ (ps : List String) (q : Pkt), q.inIf = p.inIf →
+      (∃ pfx ∈ ps, ifaceMatches (pfx ++ "+") p.inIf = true) →
+      runRules cs (f + 1) (fwdPrefixRules ps ++ fwdTail) q = .drop := by
+    intro ps
+    induction ps with
+    | nil => intro q _ h; obtain ⟨x, hx, _⟩ := h; simp at hx
+    | cons a as ih =>
+      intro q hq hex
+      simp only [fwdPrefixRules, List.cons_append]
+      by_cases ha : ifaceMatches (a ++ "+") q.inIf = true
+      · rw [runRules_cons_jump cs _ _ _ q chFromWlDispatch (by simp [fwdInRule, Rule.matches, Crit.holds, ha]) rfl,
+            runChain_succ cs f chFromWlDispatch q _ h2,
+            wlDispatch_unknown_dropped cs f ifaces q (by rw [hq]; exact hunk)]
+      · have ha' : ifaceMatches (a ++ "+") q.inIf = false := by simpa using ha
+        rw [runRules_cons_nomatch cs _ _ _ q (by simp [fwdInRule, Rule.matches, Crit.holds, ha'])]
+        have hex' : ∃ pfx ∈ as, ifaceMatches (pfx ++ "+") p.inIf = true := by
+          obtain ⟨x, hx, hxm⟩ := hex
+          rcases List.mem_cons.1 hx with h | h
+          · subst h; rw [hq, hxm] at ha'; cases ha'
+          · exact ⟨x, h, hxm⟩
+        by_cases hb : (fwdOutRule a).matches q = true
+        · rw [runRules_cons_jump cs _ _ _ q chToWlDispatch hb rfl]
+          rcases hnoacc chToWlDispatch (Or.inr rfl) q hq with h | ⟨q', h, hq'⟩
+          · rw [h]
+          · rw [h]; exact ih q' hq' hex'
+        · have hb' : (fwdOutRule a).matches q = false := by simpa using hb
+          rw [runRules_cons_nomatch cs _ _ _ q hb']
+          exact ih q hq hex'
+  unfold filterForwardChain
+  rw [runRules_cons_clear cs _ _ _ p _ (by simp [Rule.matches]) rfl]
+  by_cases hm : (({ crits := [.markClear markAccept], action := .jump chFromHepFwd } : Rule).matches
+      { p with mark := clearBits p.mark (markAll - markAccept) }) = true
+  · rw [runRules_cons_jump cs _ _ _ _ chFromHepFwd hm rfl]
+    rcases hnoacc chFromHepFwd (Or.inl rfl) { p with mark := clearBits p.mark (markAll - markAccept) } rfl with h | ⟨q', h, hq'⟩
+    · rw [h]
+    · rw [h]; exact hpfx c.prefixes q' hq' hwl
+  · have hm' : (({ crits := [.markClear markAccept], action := .jump chFromHepFwd } : Rule).matches
+      { p with mark := clearBits p.mark (markAll - markAccept) }) = false := by simpa using hm
+    rw [runRules_cons_nomatch cs _ _ _ _ hm']
+    exact hpfx c.prefixes _ rfl hwl
 
 end CalicoVerif.C40
